@@ -251,6 +251,7 @@ class Engine:
             "kinds": sorted(rng.sample(KINDS, rng.randint(1, 4))),
             "polyk": rng.choice([3, 4, 5]),
             "wide": rng.random() < 0.25,
+            "scribble": rng.random() < 0.3,
         }
         w = {"mk": 14, "copy": 8, "stack": 6, "apply": 14, "reshape": 6, "flatten": 6, "index": 8,
              "setitem": 10, "combine": 7, "astype": 4, "setter": 5, "query": 22, "reject": 1, "drop": 3,
@@ -461,13 +462,13 @@ class Engine:
                   "str", "len"],
         "HPoly": ["coords_projective", "coords_klein", "coords_poincare", "coords_hyperboloid",
                   "coords_halfspace", "distance", "origin_to", "get_edges", "get_vertices",
-                  "circle_parameters", "edges_circle_parameters", "str"],
+                  "circle_parameters", "edges_circle_parameters", "str", "minkowski"],
         "HSeg": ["coords_projective", "coords_klein", "coords_poincare", "coords_hyperboloid",
                  "coords_halfspace", "distance", "ideal_endpoint_coords", "circle_parameters",
                  "circle_parameters_halfspace", "geodesic", "get_endpoints", "endpoint_coords",
-                 "get_end_pair", "origin_to", "str"],
+                 "get_end_pair", "origin_to", "str", "minkowski"],
         "HTan": ["normalized", "origin_to", "isometry_to", "angle", "point_along", "point_vector",
-                 "coords_projective", "coords_hyperboloid", "unit_tangent_towards", "str"],
+                 "coords_projective", "coords_hyperboloid", "unit_tangent_towards", "str", "minkowski"],
     }
 
     def _gen_query(self, rng, world):
@@ -771,84 +772,132 @@ class Engine:
         h.reach = 1.2 if h.kind != "PPoly" else 0.0
         return "ok"
 
+    def _run_query(self, a, q, o, arg):
+        """perform query q on object a (o: the other operand's real object, or None); returns the
+        value(s) whose history-independence is checked, as a list of (kind, ndarray), or None"""
+        hyp = self.hyperbolic
+        if q == "projective_coords":
+            return [("proj", np.array(a.projective_coords()))]
+        if q == "affine_coords":
+            a.affine_coords(chart_index=0)
+            return None
+        if q.startswith("coords_"):
+            m = q[len("coords_"):]
+            v = np.array(a.coords(m))
+            return [("proj" if m in ("projective", "hyperboloid") else "num", v)]
+        if q == "get_edges":
+            return [("proj", np.array(a.get_edges().proj_data))]
+        if q == "get_vertices":
+            return [("proj", np.array(a.get_vertices().proj_data))]
+        if q == "in_standard_chart":
+            a.in_standard_chart()
+            return None
+        if q == "str":
+            str(a), repr(a)
+            return None
+        if q == "len":
+            len(a)
+            return None
+        if q == "distance":
+            a.distance(o)
+            return None
+        if q == "origin_to":
+            T = a.origin_to()
+            M = np.array(T.proj_data)
+            k = 2 if isinstance(a, hyp.TangentVector) else 1
+            # only the images of the first k basis vectors are determined (the rest is a completion)
+            return [("proj", M[..., :k, :])]
+        if q == "circle_parameters":
+            a.circle_parameters()
+            return None
+        if q == "circle_parameters_halfspace":
+            a.circle_parameters(model=hyp.Model.HALFSPACE)
+            return None
+        if q == "edges_circle_parameters":
+            a.get_edges().circle_parameters()
+            return None
+        if q == "ideal_endpoint_coords":
+            return [("num", np.array(a.ideal_endpoint_coords()))]
+        if q == "geodesic":
+            return [("proj", np.array(a.geodesic().proj_data))]
+        if q == "get_endpoints":
+            return [("proj", np.array(a.get_endpoints().proj_data))]
+        if q == "endpoint_coords":
+            return [("num", np.array(a.endpoint_coords()))]
+        if q == "get_end_pair":
+            p1, p2 = a.get_end_pair(as_points=True)
+            p1.distance(p2)
+            return None
+        if q == "normalized":
+            t = a.normalized()
+            return [("proj", np.array(t.proj_data)[..., 0, :]), ("pos", np.array(t.aux_data)[..., 1, :])]
+        if q == "isometry_to":
+            a.isometry_to(o)
+            return None
+        if q == "angle":
+            a.angle(o)
+            return None
+        if q == "point_along":
+            return [("proj", np.array(a.point_along(float(arg)).proj_data))]
+        if q == "point_vector":
+            hyp.Point(a.point).hyperboloid_coords()
+            return [("pos", np.array(a.vector))]
+        if q == "unit_tangent_towards":
+            hyp.Point(a.point).unit_tangent_towards(hyp.Point(o.point))
+            return None
+        if q == "minkowski":
+            return [("form", a.minkowski)]
+        raise KeyError(q)
+
     def _do_query(self, world, op, vs):
         h = world.handles[op["h"]]
         o = world.handles[op["other"]].real if op.get("other") else None
         a = h.real
         q = op["q"]
-        hyp = self.hyperbolic
-        try:
-            if q == "projective_coords":
-                a.projective_coords()
-            elif q == "affine_coords":
-                a.affine_coords(chart_index=0)
-            elif q.startswith("coords_"):
-                a.coords(q[len("coords_"):])
-            elif q == "get_edges":
-                a.get_edges()
-            elif q == "get_vertices":
-                a.get_vertices()
-            elif q == "in_standard_chart":
-                a.in_standard_chart()
-            elif q == "str":
-                str(a), repr(a)
-            elif q == "len":
-                len(a)
-            elif q == "distance":
-                a.distance(o)
-            elif q == "origin_to":
-                a.origin_to()
-            elif q == "circle_parameters":
-                a.circle_parameters()
-            elif q == "circle_parameters_halfspace":
-                a.circle_parameters(model=hyp.Model.HALFSPACE)
-            elif q == "edges_circle_parameters":
-                a.get_edges().circle_parameters()
-            elif q == "ideal_endpoint_coords":
-                a.ideal_endpoint_coords()
-            elif q == "geodesic":
-                a.geodesic()
-            elif q == "get_endpoints":
-                a.get_endpoints()
-            elif q == "endpoint_coords":
-                a.endpoint_coords()
-            elif q == "get_end_pair":
-                p1, p2 = a.get_end_pair(as_points=True)
-                p1.distance(p2)
-            elif q == "normalized":
-                a.normalized()
-            elif q == "isometry_to":
-                a.isometry_to(o)
-            elif q == "angle":
-                a.angle(o)
-            elif q == "point_along":
-                a.point_along(float(op["arg"]))
-            elif q == "point_vector":
-                hyp.Point(a.point).hyperboloid_coords()
-                a.vector
-            elif q == "unit_tangent_towards":
-                hyp.Point(a.point).unit_tangent_towards(hyp.Point(o.point))
-            else:
-                return "skipped:unknown-query"
-            out = "ok"
-        except Exception as e:       # a query may raise; C11 only constrains its side effects
-            out = "qraised:" + type(e).__name__
-            world.stats["query_raised." + q] += 1
         world.stats["query." + q] += 1
-        return out
-
-    def _do_scribble(self, world, op, vs):
-        """the caller overwrites, in place, an array it passed to the library earlier; every object
-        built from it must be unaffected"""
-        bid = op["b"]
-        if bid not in world.buffers:
-            return "skipped:no-buffer"
-        arr, snap, layout = world.buffers[bid]
-        arr *= float(op["factor"])
-        arr += float(op["shift"])
-        world.buffers[bid] = (arr, np.array(arr, dtype=np.float64), layout)
-        world.stats["probe.caller_scribbled_on_its_buffer"] += 1
-        world.nontrivial = True
+        try:
+            got = self._run_query(a, q, o, op.get("arg", 0.5))
+        except KeyError:
+            return "skipped:unknown-query"
+        except Exception as e:       # a query may raise; C11 only constrains its side effects
+            world.stats["query_raised." + q] += 1
+            return "qraised:" + type(e).__name__
+        if got is None:
+            return "ok"
+        if q == "minkowski":
+            if world.cfg.get("scribble"):
+                # the caller overwrites the form it was handed; nothing later may depend on that
+                try:
+                    got[0][1][...] = 3.0
+                    world.stats["probe.caller_scribbled_on_result"] += 1
+                except Exception:
+                    pass
+            return "ok"
+        # history independence of the answer: the same query on an object built afresh from the
+        # same primary data must give the same answer (what a stale memo of a query breaks)
+        try:
+            fresh = self.classes[h.kind](np.array(a.proj_data))
+            want = self._run_query(fresh, q, o, op.get("arg", 0.5))
+        except Exception:
+            return "ok"
+        d = h.n + 1
+        for (kind, g), (_, w) in zip(got, want):
+            if g.shape != w.shape:
+                vs.append(viol("C11", "Q.fresh", "%s() on handle %s returns shape %r, on a fresh object built "
+                               "from the same primary data %r" % (q, h.id, g.shape, w.shape)))
+                return "wrong"
+            if kind == "num":
+                ok = np.allclose(g, w, rtol=1e-6, atol=1e-8, equal_nan=True)
+            else:
+                ok = rows_proj_equal(g.reshape(-1, g.shape[-1]), w.reshape(-1, w.shape[-1]),
+                                     positive=(kind == "pos")) < 0
+            if not ok:
+                vs.append(viol("C11", "Q.fresh", "%s() on handle %s [%s] differs from the same query on an object "
+                               "built afresh from the same primary data: %s vs %s" % (
+                                   q, h.id, h.kind, np.round(g.reshape(-1, g.shape[-1])[:3], 6).tolist(),
+                                   np.round(w.reshape(-1, w.shape[-1])[:3], 6).tolist())))
+                return "wrong"
+        world.stats["probe.query_compared_with_fresh_object"] += 1
         return "ok"
 
     def _do_x_reject(self, world, op, vs):
